@@ -131,26 +131,37 @@ let max_single = 120
 
 exception Model_panic
 
+(* measured: how the verdicts were reproduced *)
+let n_lines = ref 0        (* lines run *)
+let n_struct = ref 0       (* lines the model rejects on its own (structural errors: no hint consulted) *)
+let n_hinted = ref 0       (* lines rejected because the harness reported a failing data-dependent check *)
+let n_oracle = ref 0       (* batch controls accepted only under an oracle with one false bit *)
+
 (* one line: the state afterwards and whether the line was accepted *)
 let run_line (s : rstate) (l : line) (hint : string) (bv : bool) : rstate * bool =
   let a = { a_ok = (hint <> "r"); a_bv = bv } in
   let x = (l, a) in
   let o0 = if hint = "b" then [false] else [] in
+  incr n_lines;
   match step x s o0 with
   | PANIC -> raise Model_panic
   | OK (_, s', _) -> (s', true)
   | ERR (s', _) ->
-    if hint <> "." then (s', false)
+    if hint <> "." then begin
+      (* would the line also be rejected with every check passing? then the error is structural *)
+      (match step (l, { a_ok = true; a_bv = false }) s [] with ERR (_, _) -> incr n_struct | _ -> incr n_hinted);
+      (s', false)
+    end
     else begin
       (* the real reader accepted the line: is there a data-dependent branch of the batch validation that
          the shape model takes the other way under the all-true oracle? *)
       let rec go k =
         if k >= max_single then (s', false)
         else match step x s (single k) with
-          | OK (_, s'', _) -> (s'', true)
+          | OK (_, s'', _) -> incr n_oracle; (s'', true)
           | PANIC -> raise Model_panic
           | ERR (_, _) -> go (k + 1) in
-      (match l with LBatchControl when bv -> go 0 | _ -> (s', false))
+      (match l with LBatchControl when bv -> go 0 | _ -> incr n_struct; (s', false))
     end
 
 let () =
@@ -187,4 +198,10 @@ let () =
            | Invalid_argument m -> "MODEL=BAD " ^ m
            | Failure m -> "MODEL=BAD " ^ m) in
         print_string (id ^ " " ^ out ^ "\n")
-      | [] -> ())
+      | [] -> ());
+  if Array.length Sys.argv > 2 then begin
+    let oc = open_out Sys.argv.(2) in
+    Printf.fprintf oc "lines %d\nrejected_structural %d\nrejected_by_reported_check %d\naccepted_under_one_false_bit %d\n"
+      !n_lines !n_struct !n_hinted !n_oracle;
+    close_out oc
+  end
